@@ -20,7 +20,7 @@ import time
 HERE = os.path.dirname(os.path.abspath(__file__))
 sys.path.insert(0, os.path.dirname(HERE))
 
-from replay.registry import ORACLES, oracle  # noqa
+from replay.registry import ORACLES, ALIASES, oracle  # noqa
 
 
 def resolve(qualname):
@@ -55,6 +55,9 @@ def jsonable(x):
 def search(req):
     fn = req['fn']
     orc = ORACLES.get(fn)
+    if orc is None and fn in ALIASES:
+        fn = ALIASES[fn]            # searched through the entry point that runs it
+        orc = ORACLES.get(fn)
     if orc is None:
         return dict(found=False, error='no executable oracle for %s' % fn)
     rng = random.Random(req.get('seed', 0))
@@ -130,7 +133,7 @@ def bounded(req):
 
 
 def main():
-    for m in ('oracles_arith', 'oracles_helpers', 'oracles_more', 'oracles_bounded', 'oracles_join'):
+    for m in ('oracles_arith', 'oracles_more', 'oracles_bounded', 'oracles_join', 'oracles_filters'):
         try:
             importlib.import_module('replay.' + m)
         except ImportError as e:
